@@ -644,3 +644,163 @@ mod tests {
         );
     }
 }
+
+/// Verification hook (guarded by `--cfg scylla_verif`, add-only): runs a script of the real
+/// `MetadataUpdate::merge_*` functions against a real `Option<MetadataUpdate>` slot with real
+/// oneshot response channels, and reports what is visible of the slot after every step and what
+/// became of every response channel. `Take` does what the cluster worker does with a received
+/// update's refresh responses (answers each with `Ok(())`). No behaviour of its own.
+#[cfg(scylla_verif)]
+#[allow(missing_docs)]
+pub mod verif_hooks {
+    use super::{ClientRoutesUpdate, MetadataChanges, MetadataUpdate, StatusHint};
+    use crate::cluster::metadata::{ClientRoutes, Metadata, Peer};
+    use crate::cluster::node::NodeAddr;
+    use crate::errors::MetadataError;
+    use std::collections::HashMap;
+    use std::net::SocketAddr;
+    use tokio::sync::oneshot;
+    use uuid::Uuid;
+
+    #[derive(Clone, Copy, Debug, PartialEq, Eq)]
+    pub enum Op {
+        /// merge_metadata: a full fetch, optionally answering a refresh request,
+        /// its metadata optionally carrying a client-routes snapshot
+        Full { with_response: bool, with_routes: bool },
+        /// merge_client_routes_update
+        ClientRoutes,
+        /// merge_topology_update
+        Topology,
+        /// merge_up_hint / merge_down_hint for address 127.0.0.<n>
+        UpHint(u8),
+        DownHint(u8),
+        /// the consumer takes the slot and answers the refresh responses it carries
+        Take,
+    }
+
+    /// What is visible of the slot. `version` of a step = its 1-based index in the script.
+    #[derive(Clone, Debug, Default, PartialEq, Eq)]
+    pub struct SlotView {
+        /// 0 = slot is None, 1 = Some without metadata changes, 2 = Partial, 3 = Full
+        pub kind: u8,
+        /// Full: version of the full fetch whose metadata is held
+        pub metadata_version: u64,
+        /// Full: number of peers in the held metadata (= version of the fetch that wrote them);
+        /// Partial: the same for the pending peer list, 0 if none
+        pub peers_version: u64,
+        /// Full: whether the held metadata has a client-routes snapshot
+        pub routes_configured: bool,
+        /// Partial: versions of the client-routes updates merged in (sorted)
+        pub partial_routes: Vec<u64>,
+        /// Full: number of refresh responses attached
+        pub responses: u64,
+        /// (address suffix, is_up), sorted
+        pub hints: Vec<(u8, bool)>,
+    }
+
+    fn peers(n: u64) -> Vec<Peer> {
+        (0..n)
+            .map(|k| Peer {
+                host_id: Uuid::from_u128(k as u128 + 1),
+                address: NodeAddr::Translatable(SocketAddr::from(([127, 0, 0, 1], 9042))),
+                tokens: Vec::new(),
+                datacenter: None,
+                rack: None,
+            })
+            .collect()
+    }
+
+    fn view(slot: &Option<MetadataUpdate>) -> SlotView {
+        let Some(u) = slot else {
+            return SlotView::default();
+        };
+        let mut v = SlotView { kind: 1, ..Default::default() };
+        match &u.metadata_changes {
+            None => {}
+            Some(MetadataChanges::Partial(p)) => {
+                v.kind = 2;
+                v.peers_version = p.peers.as_ref().map(|l| l.len() as u64).unwrap_or(0);
+                if let Some(r) = &p.client_routes_updates {
+                    v.partial_routes = r.updates.keys().map(|h| h.as_u128() as u64).collect();
+                    v.partial_routes.sort();
+                }
+            }
+            Some(MetadataChanges::Full { metadata, refresh_responses }) => {
+                v.kind = 3;
+                v.metadata_version = metadata.cluster_name.as_deref().and_then(|s| s.parse().ok()).unwrap_or(0);
+                v.peers_version = metadata.peers.len() as u64;
+                v.routes_configured = metadata.client_routes.is_some();
+                v.responses = refresh_responses.iter().count() as u64;
+            }
+        }
+        v.hints = u
+            .status_hints
+            .iter()
+            .map(|(a, h)| {
+                let suffix = match a.ip() {
+                    std::net::IpAddr::V4(ip) => ip.octets()[3],
+                    _ => 0,
+                };
+                (suffix, *h == StatusHint::Up)
+            })
+            .collect();
+        v.hints.sort();
+        v
+    }
+
+    /// Runs the script. Returns the view of the slot after every step and, per response
+    /// channel created (in script order): 0 = still pending, 1 = answered `Ok(())`,
+    /// 2 = its sender was dropped without an answer, 3 = answered with an error.
+    pub fn run_script(ops: &[Op]) -> (Vec<SlotView>, Vec<u8>) {
+        let mut slot: Option<MetadataUpdate> = None;
+        let mut receivers: Vec<oneshot::Receiver<Result<(), MetadataError>>> = Vec::new();
+        let mut views = Vec::with_capacity(ops.len());
+        for (i, op) in ops.iter().enumerate() {
+            let version = i as u64 + 1;
+            match *op {
+                Op::Full { with_response, with_routes } => {
+                    let metadata = Metadata {
+                        peers: peers(version),
+                        keyspaces: HashMap::new(),
+                        cluster_name: Some(version.to_string()),
+                        client_routes: with_routes.then(ClientRoutes::default),
+                    };
+                    let response = with_response.then(|| {
+                        let (tx, rx) = oneshot::channel();
+                        receivers.push(rx);
+                        tx
+                    });
+                    MetadataUpdate::merge_metadata(&mut slot, metadata, response);
+                }
+                Op::ClientRoutes => {
+                    let mut updates = HashMap::new();
+                    updates.insert(Uuid::from_u128(version as u128), HashMap::from([("c".to_string(), None)]));
+                    MetadataUpdate::merge_client_routes_update(&mut slot, ClientRoutesUpdate { updates });
+                }
+                Op::Topology => MetadataUpdate::merge_topology_update(&mut slot, peers(version)),
+                Op::UpHint(a) => MetadataUpdate::merge_up_hint(&mut slot, SocketAddr::from(([127, 0, 0, a], 9042))),
+                Op::DownHint(a) => MetadataUpdate::merge_down_hint(&mut slot, SocketAddr::from(([127, 0, 0, a], 9042))),
+                Op::Take => {
+                    if let Some(update) = slot.take() {
+                        if let Some(MetadataChanges::Full { refresh_responses, .. }) = update.metadata_changes {
+                            for response_chan in refresh_responses {
+                                let _ = response_chan.send(Ok(()));
+                            }
+                        }
+                    }
+                }
+            }
+            views.push(view(&slot));
+        }
+        let status = receivers
+            .iter_mut()
+            .map(|rx| match rx.try_recv() {
+                Ok(Ok(())) => 1,
+                Ok(Err(_)) => 3,
+                Err(oneshot::error::TryRecvError::Empty) => 0,
+                Err(oneshot::error::TryRecvError::Closed) => 2,
+            })
+            .collect();
+        (views, status)
+    }
+}
